@@ -1133,6 +1133,24 @@ def check_reentry(acc):
                         acc.violation({"oracle": "call_made_from_a_callback_gives_what_it_gives_alone", "inner": name.split("(")[0]}, {"case": case, "observed": repr(inner)[:400], "expected": repr(alone)[:400]})
 
 
+def check_shared_parts(acc):
+    """Libraries built in code whose entries share a Field object (or whose blocks occur twice): write_string equals the
+    prepended stack, then the default write stack, then the writer - on such a library like on any other."""
+    shared = lambda: Field("year", "2020")
+    def mk(sh):
+        f = shared()
+        return Library([Entry("inproceedings", f"p{i}", [Field("title", f"{{T{i}}}"), f if sh else shared()]) for i in range(3)] + [ExplicitComment("c")])
+    for prepend in ([], [6] if len(POOL) > 6 else []):
+        for sh in (True, False):
+            case = {"shared_parts": "a Field object shared by three entries" if sh else "equal Field objects", "prepend": [POOL[i][0] for i in prepend]}
+            acc.trace(2)
+            acc.case(nontrivial_key=("shared-parts", sh, tuple(prepend)))
+            got = attempt(lambda: bibtexparser.write_string(mk(sh), prepend_middleware=fresh(prepend)) if prepend else bibtexparser.write_string(mk(sh)))
+            exp = attempt(lambda: write(fold(fresh(prepend) + default_unparse(), mk(False)), BibtexFormat()))
+            if got != exp:
+                acc.violation({"oracle": "entry_point_equals_folded_stack", "position": "prepend_middleware" if prepend else "default", "container": "sequence", "kind": "shared parts"}, {"case": case, "observed": repr(got)[:400], "expected": repr(exp)[:400]})
+
+
 BIGPASS_SIZES = {"quick": [255, 256, 257, 999, 1000, 1001, 1002, 1003, 1025, 2049, 4099], "thorough": [255, 256, 257, 999, 1000, 1001, 1002, 1003, 1025, 2049, 4099, 8193, 16387, 65539]}
 
 
@@ -1177,6 +1195,7 @@ def run_shard(shard, tier, acc):
     if shard[0] == "bigpass":
         return check_bigpass(shard[1], acc)
     if shard[0] == "reentry":
+        check_shared_parts(acc)
         return check_reentry(acc)
     with tempfile.TemporaryDirectory(prefix="verif-c20-") as tmpdir:
         if shard[0] == "stacks":
@@ -1218,6 +1237,8 @@ def replay(case, acc):
             check_bigpass(case["bigpass"], acc)
         elif "reentry" in case:
             check_reentry(acc)
+        elif "shared_parts" in case:
+            check_shared_parts(acc)
         elif "failure" in case or "parse_failure" in case:
             check_failures(acc, tmpdir)
         elif "illegal" in case:
